@@ -298,11 +298,11 @@ PROPS["C06"] = {
     "timeout_quick": 1200, "timeout_thorough": 7200,
 }
 PROPS["C07"] = {
-    "lean": ["C07"],
+    "lean": ["C07", "C16"],
     "required": ["C07.c07_assigned_addresses_tracked", "C07.c07_created_eni_tracked", "C07.c07_created_addresses_tracked",
                  "C07.c07_failed_unassign_keeps", "C07.c07_failed_delete_keeps", "C07.c07_unassign_forgets_exactly",
                  "C07.c07_dispose_worker_retries", "C07.c07_undelivered_reply_unbinds", "C07.c07_release_unbinds", "C07.c07_balance_band",
-                 "C07.c07_factory_reports_what_took_effect"],
+                 "C07.c07_factory_reports_what_took_effect", "C16.c16_retry_same_token", "C16.c16_inflight_distinct_reachable", "C16.c16_token_belongs_to_hash"],
     "rule": _PW_RULE + " At the quiescent end of every case (healthy cloud, after a sync) the pool's Status() is compared with the fake cloud: every cloud address/interface is tracked, every tracked valid address is in the cloud, nothing is left marked for deletion, and no address is owned by a pod that does not hold it. Below the pool: 40 / 400 address assignments through the REAL factory (pkg/factory/aliyun AssignNIPv4 / AssignNIPv6) over the real OpenAPI wrappers (SDK transport = a small stateful ECS of the harness) and the real metadata client (MetadataBase / TokenURL point at a loopback server): the call is refused, or takes effect and the metadata lists the addresses, or takes effect and the metadata never lists them (error after effect); what the factory returns is compared with Model/Factory.lean (op fa.assign), monitor: an address the cloud assigned is not in what the factory returned.",
     "technique": "Lean 4 theorems about every result-consuming region (what a cloud call returns is tracked; nothing is forgotten before the cloud confirmed) and the balancer arithmetic; refinement check of every real lock region plus quiescent-point comparison of pool and fake cloud under injected faults",
     "level_text": "Theorems: addresses returned by an assign call are tracked whether it reported success (usable) or an error (to hand back); an interface returned with an error is kept in deleting state; failed unassign/delete calls keep what they were about, confirmed ones forget exactly that; the dispose worker only rests when nothing is marked; an undelivered reply un-binds what the request bound; the balancer's surplus/deficit lead exactly to the band. 'Eventually returns to the band' is a liveness statement; it is neither proved nor monitored as such - only the balancer's arithmetic (theorem c07_balance_band) and the correspondence of the pl.bal / pl.usage / pl.bdisp regions cover it: partial.",
@@ -347,8 +347,8 @@ PROPS["C03"] = {
     "timeout_quick": 1200, "timeout_thorough": 5400,
 }
 PROPS["C08"] = {
-    "lean": ["C08"],
-    "required": ["C08.c08_plan_within_quota", "C08.c08_slots_within_flavor", "C08.c08_no_plan_on_unattached", "C08.planPass_within"],
+    "lean": ["C08", "C16"],
+    "required": ["C08.c08_plan_within_quota", "C08.c08_slots_within_flavor", "C08.c08_no_plan_on_unattached", "C08.planPass_within", "C16.c16_retry_same_token", "C16.c16_inflight_distinct_reachable", "C16.c16_token_belongs_to_hash"],
     "rule": _IP_RULE + " Closed loop: the fault profiles also answer the Node CR's status write with a Conflict in 1 pass of 5 (status-update conflicts) and serve the controller's read of the Node CR from a lagging cache in 1 pass of 3 (the object as it was before the previous pass wrote it; the API server then refuses that pass's write); three regression seeds run first (lost synchronisation after two conflicts in a row, fixed 6131003; failed roll-back delete whose record is lost with a conflicting status write, known finding; cloud address on an interface whose record has none of that family left, fixed 7563783). The vSwitch pool's histories (C17's generator, model and monitors: a vSwitch reported exhausted comes back once its cache entry expires) run inside this check as well.",
     "technique": "Lean 4: getEniOptions/assignEniWithOptions modelled as functions of the interface order, quota theorems by induction over the option list; differential correspondence of the real planning functions; closed-loop runs of the real Reconcile against a fake cloud with fault injection (monitors)",
     "level_text": "Theorems for every interface order, record and demand: on an existing interface the plan asks for no more than its quota leaves and only when it is in use; for a new interface no more than the per-interface quota; never more than a batch; existing interfaces plus new slots never exceed the flavor. Convergence to a fixed point and rollback of failed creation are exercised by the closed-loop runs (monitors), not proved: partial.",
